@@ -115,7 +115,7 @@ func vpC15Gen(t *rapid.T) vpC15Scenario {
 		phases := []string{"idle", "gate", "gate", "pipe", "pipe", "done", "late", "wake"}
 		if vpThorough() && !fresh {
 			// a never-used connection is only "idle" 5 s after it was accepted: expensive, thorough only
-			if rapid.IntRange(0, 59).Draw(t, "freshDie") == 0 {
+			if rapid.IntRange(0, 59).Draw(t, "freshDie") == 37 { // not a boundary value: rapid favours those
 				phases = []string{"fresh"}
 			}
 		}
@@ -770,7 +770,11 @@ func TestVP_C15_Shutdown(t *testing.T) {
 	vpC15ProbeWake()
 	rapid.Check(t, func(t *rapid.T) {
 		sc := vpC15Gen(t)
+		t0 := time.Now()
 		vpC15RunScenario(t, sc)
+		if d := time.Since(t0); d > time.Second && os.Getenv("VP_C15_SLOW") != "" {
+			fmt.Printf("SLOW %v %s\n", d, sc)
+		}
 	})
 }
 
